@@ -1586,3 +1586,97 @@ func schemaShapeOf(t types.Type) string {
 	}
 	return ""
 }
+
+func init() {
+	p := Properties["C20"]
+	p.Rules = append(p.Rules, Rule{"C20/nil-only-for-nil", ruleC20NilOnlyForNil})
+}
+
+// A clone is equal to its original: an empty but non-nil list or map of subschemas (anyOf: [] rejects
+// everything, items: [] hands every element to additionalItems) must not become nil in the clone. In the clone
+// family, a nil container of subschemas is produced only under a test that the original container is nil -
+// never under a length test.
+func ruleC20NilOnlyForNil(c *Ctx) {
+	const rule = "C20/nil-only-for-nil"
+	cl := c.entry(rule, "(*Schema).CloneSchemas")
+	if cl == nil {
+		return
+	}
+	isSchemaContainer := func(t types.Type) bool {
+		switch u := t.Underlying().(type) {
+		case *types.Slice:
+			return c.isPkgNamed(derefType(u.Elem()), "Schema")
+		case *types.Map:
+			return c.isPkgNamed(derefType(u.Elem()), "Schema")
+		}
+		return false
+	}
+	nilTested := func(at ssa.Instruction, t types.Type) bool {
+		for _, g := range guardsOf(at) {
+			bo, ok := g.Cond.(*ssa.BinOp)
+			if !ok {
+				continue
+			}
+			for _, pair := range [][2]ssa.Value{{bo.X, bo.Y}, {bo.Y, bo.X}} {
+				k, isK := pair[1].(*ssa.Const)
+				if !isK || !k.IsNil() || !types.Identical(pair[0].Type(), t) {
+					continue
+				}
+				if (bo.Op == token.EQL && g.Pol) || (bo.Op == token.NEQ && !g.Pol) {
+					return true
+				}
+			}
+		}
+		return false
+	}
+	n := 0
+	for _, fn := range c.familyFuncs(cl) {
+		fn := fn
+		core.EachInstr(fn, func(i ssa.Instruction) {
+			var vals []ssa.Value
+			switch x := i.(type) {
+			case *ssa.Return:
+				for k := range x.Results {
+					vals = append(vals, returnedValue(x, k))
+				}
+			case *ssa.Call:
+				if core.CalleeKey(&x.Call) == "reflect.ValueOf" {
+					vals = append(vals, peelIface(x.Call.Args[0]))
+				}
+			case *ssa.Store:
+				vals = append(vals, x.Val)
+			}
+			for _, v := range vals {
+				if v == nil || !isSchemaContainer(v.Type()) {
+					continue
+				}
+				// nil constants that can arrive here, with the place where the choice was made
+				var walk func(v ssa.Value, at ssa.Instruction, seen map[ssa.Value]bool)
+				walk = func(v ssa.Value, at ssa.Instruction, seen map[ssa.Value]bool) {
+					if seen[v] {
+						return
+					}
+					seen[v] = true
+					switch x := v.(type) {
+					case *ssa.Const:
+						if x.IsNil() {
+							n++
+							c.R.Check(nilTested(at, x.Type()), rule, fmt.Sprintf("%s:nil-%s", core.FuncName(fn), shortTypeName(x.Type())), c.pos(at),
+								"a nil container is produced only where the original container was found nil",
+								"a nil list/map of subschemas is produced without a test that the original is nil (e.g. under a length test): an empty but present anyOf / oneOf / items [] of the original is absent in the clone, which then accepts what the original rejects and marshals differently")
+						}
+					case *ssa.Phi:
+						for k, e := range x.Edges {
+							pred := x.Block().Preds[k]
+							walk(e, pred.Instrs[len(pred.Instrs)-1], seen)
+						}
+					}
+				}
+				walk(v, i, map[ssa.Value]bool{})
+			}
+		})
+	}
+	if n == 0 {
+		c.R.OK(rule, "none", c.P.Pos(cl.Pos()), "the clone family produces no nil container of subschemas")
+	}
+}
